@@ -189,3 +189,16 @@ def eval_term(t, env, path=None):
             return None
         return min(a, b) if t[1] == "min" else max(a, b)
     return None
+
+
+def cond_truth(c):
+    """truth value (1 / 0) a recorded branch condition gives its boolean term, or None"""
+    if len(c) < 3:
+        return None
+    if c[1] == "==" and c[2] in (0, 1):
+        return c[2]
+    if c[1] == "!=" and isinstance(c[2], (tuple, list)) and tuple(c[2]) == (0,):
+        return 1
+    if c[1] == "!=" and isinstance(c[2], (tuple, list)) and tuple(c[2]) == (1,):
+        return 0
+    return None
